@@ -60,9 +60,7 @@ def world (fields : List String) : List String :=
       | .ok fac =>
         match w[idx]? with
         | none => (out ++ ["X no-instance"], w)
-        | some st =>
-          (out ++ ["reg-ok"], w.set idx { st with factories := Interp.libInsert st.factories lib fac,
-                                                  instances := st.instances.filter (fun p => p.1 ≠ lib) })
+        | some _ => (out ++ ["reg-ok"], Front.worldRegister w idx lib fac)
     else
     let idx := (String.ofList head).toNat?.getD 0
     match Front.worldStep evalFuel w idx text with
